@@ -96,7 +96,10 @@ CONTRACTS = {
         requires=["len(node.data_outputs) <= len(node.outputs)", "all(node.outputs[i] == node.data_outputs[i] for i in range(len(node.data_outputs)))",
                   "distinct_names(node.outputs)", "all(isinstance(o, str) for o in node.data_outputs)"],
         # resume: the values supplied under the interrupt's output names are what the interrupt "returns"
-        ensures=["not old(all(o in state.values for o in node.data_outputs) and node.name not in state.node_executions) or all(o in result and result[o] is old(state.values[o]) for o in node.data_outputs)"],
+        ensures=["not old(all(o in state.values for o in node.data_outputs) and node.name not in state.node_executions) or all(o in result and result[o] is old(state.values[o]) for o in node.data_outputs)",
+                 # whichever way the interrupt is passed (answer supplied, or the handler answered), its ordering signals are emitted
+                 "all(o in result and result[o] is _EMIT_SENTINEL for o in node.outputs[len(node.data_outputs):])"],
+        imports={"_EMIT_SENTINEL": "hypergraph.nodes.base"},
         trace=[{"name": "C14 resume: supplied responses pass the interrupt without calling the handler; otherwise the handler runs exactly once", "check": resume_skips_handler},
                {"name": "C14 PauseExecution exactly after a handler call (that returned None), carrying the node's name", "check": pause_only_on_none}],
         loops=[{"invariant": []}],
